@@ -7,7 +7,7 @@
 //! to `tgt`.  Per payload the result is a pair (type code, payload) of the returned Variant, (-1, 0) for
 //! `Variant::Empty`, (-2, 0) for a panic; NaN results are canonicalised to the quiet NaN with an empty
 //! payload.  The canonical output is the run-length encoding of the pairs (type code, d) as triples
-//! `[count; type code; d]`, where d = result - source payload for results of an integer type.
+//! `[count; type code; d]`, where d = result - source payload for results of an integer type from a non-float source.
 #[path = "../util.rs"]
 mod util;
 use opcua::types::{Variant, VariantTypeId};
@@ -303,7 +303,7 @@ impl Property for P {
             let r = guarded(|| if c.cast { v.cast(c.tgt.id()) } else { v.convert(c.tgt.id()) });
             let (t, w) = match r { Ok(r) => code(&r), Err(_) => (-2, 0) };
             if t == -1 { none = true } else { some = true }
-            let d = if (2..=9).contains(&t) { w - *p } else { w };
+            let d = if (2..=9).contains(&t) && !c.src.is_float() { w - *p } else { w };
             match runs.last_mut() {
                 Some(last) if last.1 == t && last.2 == d => last.0 += 1,
                 _ => runs.push((1, t, d)),
